@@ -37,12 +37,16 @@ def main():
     env.pop("WIKITEXTPROCESSOR_VERIF", None)
     rec = {"worktree": str(wt), "ran": []}
 
-    # make sure the patch is what is applied
+    # make sure the patch is what is applied, on top of /repo's current HEAD
     sh(["git", "-C", str(wt), "checkout", "--", "src"])
+    head = subprocess.run(["git", "-C", "/repo", "rev-parse", "HEAD"],
+                          capture_output=True, text=True).stdout.strip()
+    sh(["git", "-C", str(wt), "checkout", "-q", "--detach", head])
+    rec["repo_head"] = head[:10]
     rc, out = sh(["/venv/bin/python", "_seed/demo.py"], cwd=wt, env=env, timeout=300)
     rec["demo_without_change_exit"] = rc
     rec["ran"].append(f"demo.py on unchanged tree -> exit {rc}")
-    rc2, out2 = sh(["git", "-C", str(wt), "apply", str(patch)])
+    rc2, out2 = sh(["git", "-C", str(wt), "apply", "-C1", str(patch)])
     if rc2 != 0:
         print("patch does not apply:", out2)
         sys.exit(2)
@@ -84,7 +88,10 @@ def main():
             p.write_text(s)
     dst = HERE / "seeded" / name
     dst.mkdir(parents=True, exist_ok=True)
-    shutil.copy(patch, dst / "patch.diff")
+    # stored patch = the change relative to /repo's current HEAD
+    d = subprocess.run(["git", "-C", str(wt), "diff", "--", "src"],
+                       capture_output=True, text=True).stdout
+    (dst / "patch.diff").write_text(d if d.strip() else patch.read_text())
     shutil.copy(seed / "demo.py", dst / "demo.py")
     meta = {}
     try:
